@@ -149,10 +149,26 @@ class Func:
         if k == "UnaryOperator" and n.get("op") in ("*", "&"):
             p = self.path(self.kids(sid)[0])
             return None if p is None else (n["op"] + p)
+        if k == "CXXOperatorCallExpr" and n.get("op") == "()":
+            a = n.get("args", [])
+            if a:
+                p = self.path(a[0])
+                lits = []
+                for x in a[1:]:
+                    xn = self.stmts[self.strip(x)]
+                    if xn["k"] != "IntegerLiteral":
+                        return None
+                    lits.append(str(xn["value"]))
+                if p is not None:
+                    return "%s(%s)" % (p, ",".join(lits))
+            return None
         if k == "ArraySubscriptExpr":
             ks = self.kids(sid)
             p = self.path(ks[0])
-            return None if p is None else p + "[]"
+            ix = self.stmts[self.strip(ks[1])]
+            if p is None:
+                return None
+            return p + ("[%s]" % ix["value"] if ix["k"] == "IntegerLiteral" else "[]")
         if k == "CXXOperatorCallExpr" and n.get("op") in ("[]", "*", "->"):
             a = n.get("args", [])
             if a:
@@ -251,13 +267,19 @@ class Func:
         res = []
         two = b.cond is not None and len(b.succs) == 2 and b.termKind != "SwitchStmt" \
             and not b.tempDtorBranch
+        cc = None
+        if b.termKind == "IfStmt" and b.term is not None:
+            cc = self.stmts[b.term].get("constCond")
         for i, s in enumerate(b.succs):
             if s is None:
                 continue
             pol = None
             if two:
                 pol = (i == 0)
-            res.append((s, pol, b.unreach[i]))
+            unr = b.unreach[i]
+            if cc is not None and two and pol != cc:
+                unr = True      # discarded arm of an 'if constexpr'
+            res.append((s, pol, unr))
         return res
 
     def reachable_blocks(self, include_unreachable_edges=False):
